@@ -3,13 +3,18 @@
 import json, os
 VERIF = os.path.dirname(os.path.dirname(os.path.abspath(__file__)))
 
-CHECKS = {
- 'C01': dict(
-    text="Lean 4 theorems: `_t_eval`'s flat-tuple loop refines the left-to-right walk for every heap, target and path of any length (same object on success, PathAccessError(k, e) at the first failing segment, nothing touched after it), `Path.from_text` = `Path(*segs)`, PathAccessError's bases; per-run facts obligation by `decide` on the tables regenerated from /repo; model tied to the code by differential execution through the compiled Lean driver.",
-    note="trusted: Lean kernel + {propext, Classical.choice, Quot.sound}; extractor; harness/driver; CPython access primitives (getattr/subscription/int()) as modelled in Glom/Py/Access.lean and validated by the correspondence; default registry only (C13 covers registration); segments within int() subset [+-]?[0-9]+.",
-    technique="Lean 4 refinement proof (flat ops loop = structural walk) + facts obligation by decide + differential correspondence",
-    ref="DESIGN.md §3 C01"),
-}
+import importlib, sys
+sys.path.insert(0, VERIF)
+sys.dont_write_bytecode = True
+CHECKS = {}
+for i in range(1, 21):
+    pid = 'C%02d' % i
+    try:
+        m = importlib.import_module('harness.props.' + pid.lower())
+    except ModuleNotFoundError:
+        continue
+    if getattr(m, 'READY', False):
+        CHECKS[pid] = m.MANIFEST
 
 PENDING_REASON = "not yet built in this round of work: the Lean model and theorems for this property are under construction (see DESIGN.md §3); no check is registered until model, theorems and correspondence exist"
 
